@@ -16,6 +16,12 @@ static inline void env_findAll(int circuit, int name, int levels, _Bool complete
   g_findall_calls = g_findall_calls + 1; g_fa_levels = levels; g_fa_circuit = circuit; g_fa_name = name; g_fa_complete = completeMatch; g_fa_read = withRead; g_fa_write = withWrite;
   g_fa_passive = withPassive; g_fa_incl_empty = includeEmptyLevel; g_fa_only_avail = onlyAvailable; g_fa_since = since; g_fa_until = until; g_fa_changed = changedSince; (void)messages;
 }
+/* TCP command arguments (vector<string>) and the reply stream */
+#define ARGCAP 5
+struct argvec { vstr e[ARGCAP]; size_t n; };
+static inline const vstr* argvec_at(const struct argvec* a, size_t i) { __CPROVER_assert(i < a->n, "[C20] vector<string>::operator[] index < size()"); return &a->e[i < ARGCAP ? i : 0]; }
+struct tokout { unsigned n; };
+static inline void out_str(struct tokout* o, const char* s) { (void)s; o->n = o->n + 1; }
 #include "gen_protos.h"
 #include "gen_funcs.inc"
 
@@ -44,4 +50,23 @@ void h_data_auth(void) {
     __CPROVER_assert((user.n > 0 || secret.n > 0) && !g_secret_ok, "[C16] not authorized is answered only when credentials were given and did not check out");
     CANARY("rejected");
   }
+}
+
+/* TCP command "auth USER SECRET": the connection's user changes only to a user whose secret was checked successfully */
+void h_tcp_auth(void) {
+  struct argvec args; struct tokout out; out.n = 0; vstr user = nondet_vstr(); vstr user0 = user;
+  args.n = nondet_size(); __CPROVER_assume(args.n <= ARGCAP && vstr_valid(&user));
+  for (size_t k = 0; k < ARGCAP; k++) { args.e[k] = nondet_vstr(); __CPROVER_assume(vstr_valid(&args.e[k])); }
+  g_secret_ok = nondet_bool(); g_check_calls = 0;
+  result_t r = ML_executeAuth(&args, &user, &out);
+  _Bool same = user.n == user0.n; for (size_t j = 0; j < VSTR_CAP; j++) { if (j < user.n && user.d[j] != user0.d[j]) same = 0; }
+  _Bool authenticated = args.n == 3 && g_check_calls == 1 && g_secret_ok && g_checked_user == &args.e[1] && g_checked_secret == &args.e[2];
+  if (!authenticated) { __CPROVER_assert(same, "[C16] a failed or malformed auth command leaves the connection with the levels it had"); }
+  else {
+    _Bool is1 = user.n == args.e[1].n; for (size_t j = 0; j < VSTR_CAP; j++) { if (j < user.n && user.d[j] != args.e[1].d[j]) is1 = 0; }
+    __CPROVER_assert(is1, "[C16] after a successful auth command the connection acts as exactly the authenticated user");
+    CANARY("authenticated");
+  }
+  __CPROVER_assert(r == RESULT_OK, "[C16] auth always answers");
+  if (args.n == 3 && !g_secret_ok) { CANARY("wrong secret"); }
 }
